@@ -13,8 +13,11 @@ Theorem C15_heartbeat_resp_unpauses : forall st r m r' e pr,
 Proof. exact heartbeat_resp_unpauses. Qed.
 Print Assumptions C15_heartbeat_resp_unpauses.
 
+(* (outside an auto-leave joint configuration; inside one the same tick first aborts the transfer
+   and then retries the proposal that leaves the joint configuration: the F7 repair) *)
 Theorem C15_transfer_aborted : forall st r r',
   r_state r = StateLeader -> r_check_quorum r = false ->
+  c_auto_leave (t_config (r_trk r)) = false ->
   r_election_timeout r <= r_election_elapsed r + 1 ->
   r_heartbeat_elapsed r + 1 < r_heartbeat_timeout r ->
   tick_heartbeat st r = Ok r' -> r_lead_transferee r' = NoneId.
